@@ -152,3 +152,261 @@ REG.spec('agent/scheduler/continuous.py:Continuous._find_resources',
     },
     opts = dict(no_merge=True),
     serves = ['C01', 'C02'])
+
+
+# ------------------------------------------------------------------------------
+# slot format conversion (utils/misc.py), variant: slots carrying RO lists (what
+# the scheduler itself produces); C19 also relies on this contract
+#
+REG.define('same_placement(a, b)',
+    'a.node_index == b.node_index and a.node_name == b.node_name and '
+    'a.cores == b.cores and a.gpus == b.gpus and a.lfs == b.lfs and a.mem == b.mem')
+
+REG.spec('utils/misc.py:convert_slots_to_new',
+    params   = dict(slots=SlotL),
+    ignore_params = ['log'],
+    returns  = SlotL,
+    locals   = dict(new_slots=SlotL),
+    ensures  = [('same-length', 'len(result) == len(slots)'),
+                ('placement-preserved',
+                 'forall(lambda k: implies(0 <= k < len(slots), same_placement(result[k], slots[k])))')],
+    loops    = {'1': ['len(new_slots) == i_slot',
+                      'forall(lambda k: implies(0 <= k < len(new_slots), same_placement(new_slots[k], slots[k])))']},
+    serves   = ['C01', 'C03', 'C19'])
+
+
+# ------------------------------------------------------------------------------
+# AgentSchedulingComponent._change_slot_states: mark / unmark a placement
+#
+NodeL = T.List(NodeD)
+REG.define_sum('lfs_on', 's', ['ni'], 'ite(s.node_index == ni, s.lfs, 0)', T.Int)
+REG.define_sum('mem_on', 's', ['ni'], 'ite(s.node_index == ni, s.mem, 0)', T.Int)
+
+# the node list keeps its skeleton (indices, names, sizes)
+REG.define('same_skeleton(a, b)',
+    'len(a) == len(b) and forall(lambda n: implies(0 <= n < len(a), '
+    'a[n].index == b[n].index and a[n].name == b[n].name and '
+    'len(a[n].cores) == len(b[n].cores) and len(a[n].gpus) == len(b[n].gpus)))')
+REG.define('distinct_nodes(a)',
+    'forall(lambda n, m: implies(0 <= n < m < len(a), a[n].index != a[m].index))')
+# every slot names an existing node and cells inside it
+REG.define('placement_fits(slots, nodes)',
+    'forall(lambda k: implies(0 <= k < len(slots), '
+    'exists(lambda n: 0 <= n < len(nodes) and nodes[n].index == slots[k].node_index))) and '
+    'forall(lambda k, n, j: implies(0 <= k < len(slots) and 0 <= n < len(nodes) and '
+    'nodes[n].index == slots[k].node_index and 0 <= j < len(slots[k].cores), '
+    '0 <= slots[k].cores[j].index < len(nodes[n].cores))) and '
+    'forall(lambda k, n, j: implies(0 <= k < len(slots) and 0 <= n < len(nodes) and '
+    'nodes[n].index == slots[k].node_index and 0 <= j < len(slots[k].gpus), '
+    '0 <= slots[k].gpus[j].index < len(nodes[n].gpus)))')
+
+# cells named by the first `upto` slots hold `v`; nothing else changed
+REG.define('cores_marked(new, old, slots, upto, v)',
+    'forall(lambda k, n, j: implies(0 <= k < upto and 0 <= n < len(new) and '
+    'old[n].index == slots[k].node_index and 0 <= j < len(slots[k].cores), '
+    'new[n].cores[slots[k].cores[j].index] == v)) and '
+    'forall(lambda n, c: implies(0 <= n < len(new) and 0 <= c < len(new[n].cores) and '
+    'new[n].cores[c] != old[n].cores[c], '
+    'exists(lambda k, j: 0 <= k < upto and 0 <= j < len(slots[k].cores) and '
+    'slots[k].node_index == old[n].index and slots[k].cores[j].index == c)))')
+REG.define('gpus_marked(new, old, slots, upto, v)',
+    'forall(lambda k, n, j: implies(0 <= k < upto and 0 <= n < len(new) and '
+    'old[n].index == slots[k].node_index and 0 <= j < len(slots[k].gpus), '
+    'new[n].gpus[slots[k].gpus[j].index] == v)) and '
+    'forall(lambda n, c: implies(0 <= n < len(new) and 0 <= c < len(new[n].gpus) and '
+    'new[n].gpus[c] != old[n].gpus[c], '
+    'exists(lambda k, j: 0 <= k < upto and 0 <= j < len(slots[k].gpus) and '
+    'slots[k].node_index == old[n].index and slots[k].gpus[j].index == c)))')
+REG.define('lfs_mem_moved(new, old, slots, upto, v)',
+    'forall(lambda n: implies(0 <= n < len(new), '
+    'new[n].lfs == ite(v == BUSY, old[n].lfs - sumf("lfs_on", slots, upto, old[n].index), '
+    'old[n].lfs + sumf("lfs_on", slots, upto, old[n].index)) and '
+    'new[n].mem == ite(v == BUSY, old[n].mem - sumf("mem_on", slots, upto, old[n].index), '
+    'old[n].mem + sumf("mem_on", slots, upto, old[n].index))))')
+
+REG.spec('agent/scheduler/base.py:AgentSchedulingComponent._change_slot_states',
+    params   = dict(slots=SlotL, new_state=T.Real),
+    self     = dict(nodes=NodeL),
+    locals   = dict(node_found=T.Bool),
+    calls    = {'rpu.convert_slots_to_new': 'utils/misc.py:convert_slots_to_new'},
+    requires = ['distinct_nodes(self.nodes)', 'placement_fits(slots, self.nodes)',
+                'new_state == FREE or new_state == BUSY'],
+    modifies = ['self.nodes'],
+    raises   = {},
+    ensures  = [
+      ('skeleton-kept', 'same_skeleton(self.nodes, old(self.nodes))'),
+      ('named-cores-marked-nothing-else', 'cores_marked(self.nodes, old(self.nodes), slots, len(slots), new_state)'),
+      ('named-gpus-marked-nothing-else',  'gpus_marked(self.nodes, old(self.nodes), slots, len(slots), new_state)'),
+      ('lfs-mem-debited-or-credited',     'lfs_mem_moved(self.nodes, old(self.nodes), slots, len(slots), new_state)'),
+    ],
+    loops = {
+      '1': ['len(slots) == len(old(slots))',
+            'forall(lambda k: implies(0 <= k < len(slots), same_placement(slots[k], old(slots)[k])))',
+            'same_skeleton(self.nodes, old(self.nodes))',
+            'cores_marked(self.nodes, old(self.nodes), slots, i_slot, new_state)',
+            'gpus_marked(self.nodes, old(self.nodes), slots, i_slot, new_state)',
+            'lfs_mem_moved(self.nodes, old(self.nodes), slots, i_slot, new_state)'],
+      '1.1': ['not node_found',
+              'forall(lambda m: implies(0 <= m < i_node, self.nodes[m].index != slot.node_index))',
+              'self.nodes == at_head("1", self.nodes)'],
+      '1.2': ['node_found', '0 <= i_node < len(self.nodes)', 'node.index == slot.node_index',
+              'same_skeleton(self.nodes, old(self.nodes))',
+              'forall(lambda n: implies(0 <= n < len(self.nodes) and n != i_node, self.nodes[n] == at_head("1", self.nodes)[n]))',
+              'node.lfs == at_head("1", self.nodes)[i_node].lfs and node.mem == at_head("1", self.nodes)[i_node].mem and '
+              'node.gpus == at_head("1", self.nodes)[i_node].gpus',
+              'forall(lambda j: implies(0 <= j < i_core, node.cores[slot.cores[j].index] == new_state))',
+              'forall(lambda c: implies(0 <= c < len(node.cores) and node.cores[c] != at_head("1", self.nodes)[i_node].cores[c], '
+              'exists(lambda j: 0 <= j < i_core and slot.cores[j].index == c)))'],
+      '1.3': ['node_found', '0 <= i_node < len(self.nodes)', 'node.index == slot.node_index',
+              'same_skeleton(self.nodes, old(self.nodes))',
+              'forall(lambda n: implies(0 <= n < len(self.nodes) and n != i_node, self.nodes[n] == at_head("1", self.nodes)[n]))',
+              'node.lfs == at_head("1", self.nodes)[i_node].lfs and node.mem == at_head("1", self.nodes)[i_node].mem',
+              'forall(lambda j: implies(0 <= j < len(slot.cores), node.cores[slot.cores[j].index] == new_state))',
+              'forall(lambda c: implies(0 <= c < len(node.cores) and node.cores[c] != at_head("1", self.nodes)[i_node].cores[c], '
+              'exists(lambda j: 0 <= j < len(slot.cores) and slot.cores[j].index == c)))',
+              'forall(lambda j: implies(0 <= j < i_gpu, node.gpus[slot.gpus[j].index] == new_state))',
+              'forall(lambda c: implies(0 <= c < len(node.gpus) and node.gpus[c] != at_head("1", self.nodes)[i_node].gpus[c], '
+              'exists(lambda j: 0 <= j < i_gpu and slot.gpus[j].index == c)))'],
+    },
+    opts = dict(no_merge=True),
+    serves = ['C01', 'C03'])
+
+
+# ------------------------------------------------------------------------------
+# Continuous.schedule_task
+#
+import z3 as _z3
+from pyvc import core as _C
+from pyvc.core import Val as _Val, TInt as _TInt, fresh as _fresh
+
+Tags   = T.Rec('Tags', colocate=OStr, exclusive=T.Opt(T.Bool))
+REG.optional_keys['Tags'] = {'colocate', 'exclusive'}
+TDescA = T.Rec('TDescA', ranks=T.Int, ranks_per_node=T.Opt(T.Int),
+               cores_per_rank=T.Int, gpus_per_rank=T.Real, lfs_per_rank=T.Int,
+               mem_per_rank=T.Int, tags=Tags, partition=T.Opt(T.Int),
+               named_env=OStr, priority=T.Opt(T.Int), raptor_id=OStr, mode=OStr,
+               slots=T.Opt(SlotL))
+REG.optional_keys['TDescA'] = {'partition', 'named_env', 'priority', 'raptor_id', 'mode', 'slots'}
+ATask  = T.Rec('ATask', uid=T.Str, description=TDescA, slots=T.Opt(SlotL),
+               partition=T.Opt(T.Int), exception=OAny, exception_detail=OAny,
+               resources=OAny)
+REG.optional_keys['ATask'] = {'slots', 'partition', 'exception', 'exception_detail', 'resources'}
+REG.types.update(ATask=ATask)
+RMInfo = T.Rec('RMInfoA', cores_per_node=T.Int, gpus_per_node=T.Int,
+               lfs_per_node=T.Int, mem_per_node=T.Int)
+RM     = T.Rec('RMA', info=RMInfo)
+
+
+def _iterate_nodes(ex, node, st):
+    """assumed contract of the generator Continuous._iterate_nodes (DESIGN 2.7):
+    it yields every element of self.nodes exactly once, starting at
+    self._node_offset and wrapping around; self._node_offset stays in range.
+    The yielded sequence is returned as a list Y."""
+    nodes = ex.get_var(st, 'self.nodes')
+    off   = ex.get_var(st, 'self._node_offset')
+    ty    = nodes.ty
+    n     = ty.len(nodes.term)
+    ex.fail(st, _z3.And(n > 0, _z3.Or(off.term < 0, off.term >= n)), 'IndexError')
+    Y = ex.fresh_wf(st, ty, 'Y')
+    i, j = _z3.Int(_C.fresh_name('i')), _z3.Int(_C.fresh_name('j'))
+    pos = _z3.If(off.term + i < n, off.term + i, off.term + i - n)
+    st.assume(ty.len(Y.term) == n)
+    st.assume(_z3.ForAll([i], _z3.Implies(_z3.And(0 <= i, i < n),
+              _z3.Select(ty.arr(Y.term), i) == _z3.Select(ty.arr(nodes.term), pos)),
+              patterns=[_z3.Select(ty.arr(Y.term), i)]))
+    # consequence used by the caller: distinct positions -> distinct nodes
+    idx = lambda arr, k: ty.elem.get(_z3.Select(arr, k), 'index')
+    st.assume(_z3.Implies(
+        _z3.ForAll([i, j], _z3.Implies(_z3.And(0 <= i, i < j, j < n),
+                   idx(ty.arr(nodes.term), i) != idx(ty.arr(nodes.term), j))),
+        _z3.ForAll([i, j], _z3.Implies(_z3.And(0 <= i, i < j, j < n),
+                   idx(ty.arr(Y.term), i) != idx(ty.arr(Y.term), j)))))
+    new_off = _fresh(_TInt, 'node_offset')
+    st.assume(_z3.And(new_off.term >= 0, _z3.Or(new_off.term < n, n == 0)))
+    st.env['self._node_offset'] = new_off
+    st.env['Y'] = Y
+    return Y
+_iterate_nodes.mutates = ('self._node_offset',)
+
+# one rank's share on an existing node of the pilot, with the requested shape (C02)
+REG.define('rank_placed(s, nodes, cps, gps, lfs, mem)',
+    'exists(lambda n: 0 <= n < len(nodes) and slot_on(s, nodes[n], cps, lfs, mem) and '
+    'ite(gps >= 1, whole_gpus(s, nodes[n], int(gps)), '
+    'ite(gps > 0, shared_gpu(s, nodes[n], gps), len(s.gpus) == 0)))')
+REG.define('eff_cps(td)', 'ite(td.cores_per_rank == 0, 1, td.cores_per_rank)')
+
+_st_self = dict(nodes=NodeL, _rm=RM, _colo_history=T.Map(T.Str, T.List(T.Int)),
+                _tagged_nodes=T.Set(T.Int), _partition_ids=T.List(T.Int),
+                _scattered=T.Bool, _node_offset=T.Int)
+
+REG.spec('agent/scheduler/continuous.py:Continuous.schedule_task',
+    params   = dict(task=ATask),
+    self     = _st_self,
+    returns  = T.Tuple(T.Opt(SlotL), T.Opt(T.Int)),
+    locals   = dict(alc_slots=SlotL, new_slots=T.Opt(SlotL), rem_slots=T.Int,
+                    is_first=T.Bool, is_last=T.Bool, partial=T.Bool,
+                    n_slots=T.Int, node_index=T.Int, node_name=T.Str,
+                    colo_tag=OStr, task_partition_id=T.Opt(T.Int),
+                    node_partition_id=T.Opt(T.Int), is_exclusive=T.Bool),
+    comps    = {},
+    calls    = {'self._iterate_nodes': _iterate_nodes,
+                'self._find_resources': 'agent/scheduler/continuous.py:Continuous._find_resources'},
+    requires = ['distinct_nodes(self.nodes)',
+                'forall(lambda n: implies(0 <= n < len(self.nodes), node_ok(self.nodes[n]) and '
+                'len(self.nodes[n].cores) >= 1 and len(self.nodes[n].gpus) >= self._rm.info.gpus_per_node))',
+                'implies(len(self.nodes) > 0, 0 <= self._node_offset < len(self.nodes))',
+                'task.description.ranks >= 1', 'task.description.cores_per_rank >= 0',
+                'task.description.gpus_per_rank >= 0', 'task.description.lfs_per_rank >= 0',
+                'task.description.mem_per_rank >= 0',
+                'implies(task.description.ranks_per_node is not None, val(task.description.ranks_per_node) >= 0)',
+                'self._rm.info.cores_per_node >= 1', 'self._rm.info.gpus_per_node >= 0',
+                'self._rm.info.lfs_per_node >= 0', 'self._rm.info.mem_per_node >= 0'],
+    modifies = ['self._colo_history', 'self._tagged_nodes', 'self._node_offset'],
+    # C02: a request whose per-rank needs exceed a node is rejected, not shrunk
+    raises   = {'AssertionError':
+                  'eff_cps(task.description) > self._rm.info.cores_per_node or '
+                  'task.description.gpus_per_rank > self._rm.info.gpus_per_node or '
+                  'task.description.lfs_per_rank > self._rm.info.lfs_per_node or '
+                  'task.description.mem_per_rank > self._rm.info.mem_per_node',
+                'ValueError': 'True'},
+    raises_weak = ['ValueError'],
+    frame_on_raise = False,
+    ensures  = [
+      ('failure-is-none-none', 'implies(result[0] is None, result[1] is None)'),
+      ('exactly-the-requested-ranks',
+       'implies(result[0] is not None, len(val(result[0])) == task.description.ranks)'),
+      ('each-rank-on-one-node-with-requested-shape-on-free-cells',
+       'implies(result[0] is not None, forall(lambda k: implies(0 <= k < len(val(result[0])), '
+       'rank_placed(val(result[0])[k], self.nodes, eff_cps(task.description), task.description.gpus_per_rank, '
+       'task.description.lfs_per_rank, task.description.mem_per_rank))))'),
+      ('no-core-or-gpu-in-two-ranks',
+       'implies(result[0] is not None, forall(lambda k, k2, j, j2: implies(0 <= k < k2 < len(val(result[0])) and '
+       'val(result[0])[k].node_index == val(result[0])[k2].node_index, '
+       'implies(0 <= j < len(val(result[0])[k].cores) and 0 <= j2 < len(val(result[0])[k2].cores), '
+       'val(result[0])[k].cores[j].index < val(result[0])[k2].cores[j2].index) and '
+       'implies(task.description.gpus_per_rank >= 1 and 0 <= j < len(val(result[0])[k].gpus) and 0 <= j2 < len(val(result[0])[k2].gpus), '
+       'val(result[0])[k].gpus[j].index < val(result[0])[k2].gpus[j2].index))))'),
+      ('colocated-only-on-nodes-used-for-the-tag',
+       'implies(result[0] is not None and task.description.partition is None and '
+       'task.description.tags.colocate is not None and indom(old(self._colo_history), val(task.description.tags.colocate)), '
+       'forall(lambda k: implies(0 <= k < len(val(result[0])), '
+       'val(result[0])[k].node_index in at(old(self._colo_history), val(task.description.tags.colocate)))))'),
+    ],
+    loops = {
+      '1': ['len(alc_slots) + rem_slots == req_slots', 'rem_slots >= 0', 'req_slots == td.ranks',
+            'slots_per_node >= 0',
+            'cores_per_slot == eff_cps(td)', 'cores_per_slot >= 1',
+            'forall(lambda k: implies(0 <= k < len(alc_slots), rank_placed(alc_slots[k], self.nodes, cores_per_slot, gpus_per_slot, lfs_per_slot, mem_per_slot)))',
+            # slots collected so far lie on nodes already visited
+            'forall(lambda k, m: implies(0 <= k < len(alc_slots) and i_node <= m < len(Y), alc_slots[k].node_index != Y[m].index))',
+            'forall(lambda k, k2, j, j2: implies(0 <= k < k2 < len(alc_slots) and alc_slots[k].node_index == alc_slots[k2].node_index, '
+            'implies(0 <= j < len(alc_slots[k].cores) and 0 <= j2 < len(alc_slots[k2].cores), alc_slots[k].cores[j].index < alc_slots[k2].cores[j2].index) and '
+            'implies(gpus_per_slot >= 1 and 0 <= j < len(alc_slots[k].gpus) and 0 <= j2 < len(alc_slots[k2].gpus), alc_slots[k].gpus[j].index < alc_slots[k2].gpus[j2].index)))',
+            'implies(partition_id is None and colo_tag is not None and indom(old(self._colo_history), val(colo_tag)), '
+            'forall(lambda k: implies(0 <= k < len(alc_slots), alc_slots[k].node_index in at(old(self._colo_history), val(colo_tag)))))',
+            'implies(partition_id is None, self._colo_history == old(self._colo_history))',
+            'implies(partition_id is None, colo_tag == td.tags.colocate)',
+            ],
+    },
+    opts   = dict(no_merge=False),
+    serves = ['C01', 'C02'])
